@@ -345,7 +345,11 @@ def _later_copy(fn, n):
     if isinstance(st, ast.Assign) and isinstance(st.targets[0], ast.Name):
         v = st.targets[0].id
         for r in lib.returns_of(fn):
-            if r.value is not None and isinstance(r.value, ast.Call) and dotted(r.value.func) == "ast.copy_location" and v in lib.names_loaded(r.value):
+            # the new node must be the FIRST argument of copy_location (the second one is where the location comes from)
+            if r.value is not None and isinstance(r.value, ast.Call) and dotted(r.value.func) == "ast.copy_location" and r.value.args and v in lib.names_loaded(r.value.args[0]) and r.lineno >= st.lineno:
+                return True
+        for a in walk_local(fn):
+            if isinstance(a, ast.Call) and dotted(a.func) == "ast.copy_location" and a.args and v in lib.names_loaded(a.args[0]) and a.lineno >= st.lineno and not isinstance(parent(a), ast.Return):
                 return True
     return isinstance(st, ast.Return) and isinstance(st.value, ast.Call) and dotted(st.value.func) == "ast.copy_location"
 
@@ -379,6 +383,88 @@ def check_locations(ctx, R="C09.lineno"):
                 qualname=a.rule,
             )
     ctx.floor(R, n, 300, "located node constructions in grammar actions")
+
+
+def check_arguments_helper(ctx, R="C09.arguments"):
+    ctx.rule(
+        R,
+        "the parser helper that assembles `ast.arguments` puts the parameter groups in Python's order: `defaults` lists the defaults of the "
+        "positional-only parameters before those of the ordinary parameters, `args` lists the parameters without default before those with "
+        "one (sources are followed through the helper's locals in evaluation order); the documented class-body rejection of annotated "
+        "assignments looks at the class body only, not at nested functions",
+    )
+    tree = ctx.grammar.subheader_tree()
+    fns = [f for f in ast.walk(tree) if isinstance(f, ast.FunctionDef) and f.name == "make_arguments"]
+    if not fns:
+        raise AnalysisError("shape not recognised: parser helper make_arguments missing")
+    fn = fns[0]
+    ps = [a.arg for a in fn.args.args]
+    if len(ps) != 6:
+        raise AnalysisError("shape not recognised: parameters of make_arguments")
+    _self, pos_only, pos_def, par_nodef, par_def, after = ps
+    build = [c for c in ast.walk(fn) if isinstance(c, ast.Call) and dotted(c.func) == "ast.arguments"]
+    if len(build) != 1:
+        raise AnalysisError("shape not recognised: make_arguments builds no single ast.arguments")
+
+    def sources(e, depth=0):
+        """parameter names mentioned by e in evaluation order, following locals (all their definitions in line order)"""
+        out = []
+        if depth > 4:
+            return out
+        if isinstance(e, ast.BinOp):
+            return sources(e.left, depth) + sources(e.right, depth)
+        if isinstance(e, ast.IfExp):
+            return sources(e.body, depth) + sources(e.orelse, depth)
+        if isinstance(e, ast.BoolOp):
+            for v in e.values:
+                out += sources(v, depth)
+            return out
+        if isinstance(e, (ast.ListComp, ast.GeneratorExp)):
+            return sources(e.generators[0].iter, depth)
+        if isinstance(e, ast.Name):
+            if e.id in ps:
+                return [e.id]
+            defs = sorted((n for n in ast.walk(fn) if isinstance(n, (ast.Assign, ast.AugAssign)) and any(isinstance(t, ast.Name) and t.id == e.id for t in (n.targets if isinstance(n, ast.Assign) else [n.target]))), key=lambda n: n.lineno)
+            for d in defs:
+                out += sources(d.value, depth + 1)
+            return out
+        for ch in ast.iter_child_nodes(e):
+            out += sources(ch, depth)
+        return out
+
+    want = {"defaults": [pos_def, par_def], "args": [par_nodef, par_def]}
+    for field, order in want.items():
+        v = lib.kw(build[0], field)
+        if v is None:
+            raise AnalysisError(f"shape not recognised: ast.arguments(... {field}=...) in make_arguments")
+        got = [x for x in dict.fromkeys(sources(v)) if x in order]
+        if got == order:
+            ctx.ok(R, GRAMFILE, f"make_arguments: {field} = {order[0]} then {order[1]}", qualname="subheader.make_arguments")
+        else:
+            ctx.finding(
+                R,
+                GRAMFILE,
+                f"make_arguments: {field} built from {got}",
+                f"parser helper make_arguments builds `{field}` from {got}; Python's ast.arguments needs {order} in that order (e.g. `def f(a=1, /, c=3)` would get its two defaults swapped): "
+                f"functions, lambdas and behaviours with such parameter lists silently bind the wrong default values",
+                qualname="subheader.make_arguments",
+            )
+    # class-body rejection is shallow
+    cd = ctx.model.func("scenic.syntax.compiler", "ScenicToPythonTransformer.visit_ClassDef")
+    nd = cd.args.args[1].arg
+    for r in [x for x in walk_local(cd) if isinstance(x, ast.Raise)]:
+        loops = [a for a in ancestors(r) if isinstance(a, ast.For)]
+        if not loops:
+            continue
+        # only rejections of plain-Python statements (guarded by isinstance(<stmt>, ast.X)) are of interest here
+        if not any(isinstance(t, ast.Call) and dotted(t.func) == "isinstance" and len(t.args) == 2 and unparse(t.args[1]).startswith("ast.") and p_ for t, p_ in lib.guard_tests(r, cd)):
+            continue
+        it = unparse(loops[0].iter)
+        src_, _v, _t = lib.iter_source(cd, loops[0].iter)
+        if it == f"{nd}.body" or unparse(src_) == f"{nd}.body":
+            ctx.ok(R, r, "visit_ClassDef rejects annotated assignments among the direct statements of the class body only")
+        else:
+            ctx.finding(R, r, f"visit_ClassDef rejection ranges over {it}", f"visit_ClassDef raises a syntax error for statements found in `{it}`, not only for the direct statements of the class body ({nd}.body): annotated local variables inside methods of a class (valid Python) are rejected")
 
 
 def check_reference(ctx, R="C09.reference"):
@@ -447,4 +533,5 @@ def check(ctx):
     check_capture(ctx)
     check_visitors(ctx)
     check_locations(ctx)
+    check_arguments_helper(ctx)
     check_reference(ctx)
